@@ -85,6 +85,15 @@ def mutate(text, rng):
     return t
 
 
+SOUP = ["#endif", "#else", "#ifdef HERA_PY", "#ifdef HERA_C", "#ifndef HERA_PY", "#ifndef X", "SET(R1, 1)", "", "  #endif  ", "\t#else",
+        "#endif // c", "#ifdef", "junk {"]
+
+
+def soup(rng):
+    """directive lines in any order and balance: closers that close nothing, openers that are never closed, doubled #else"""
+    return "\n".join(rng.choice(SOUP) for _ in range(rng.choice([1, 2, 2, 3, 4, 6, 9]))) + rng.choice(["", "\n"])
+
+
 def check(seed, n):
     import hera.parser as P
     rng = random.Random(seed)
@@ -98,11 +107,16 @@ def check(seed, n):
         if k % 3 == 2:
             text = mutate(text, rng)
             kind = "mutated"
+        elif k % 7 == 3:
+            text = soup(rng)
+            kind = "soup"
         try:
             real = P.evaluate_ifdefs(text)
         except Exception as e:  # noqa
-            violations.append({"property": "C07", "stream": "ifdef", "sig": "ifdef:exception", "case": {"text": text},
-                               "what": "evaluate_ifdefs raised " + type(e).__name__})
+            # no result at all: the front end is not total (C07) and nothing is kept by any rule (C16)
+            for pid in ("C07", "C16"):
+                violations.append({"property": pid, "stream": "ifdef", "sig": "ifdef:exception", "case": {"text": text},
+                                   "what": "evaluate_ifdefs raised {} on {!r}".format(type(e).__name__, text[:80])})
             continue
         reqs.append("ifdef " + proto.w_str(text))
         reals.append(proto.w_str(real))
